@@ -59,6 +59,10 @@ def run(ctx: core.Ctx) -> int:
             ctx.error(f"{F}:{q('get_params')}: the returned table is neither a dict literal nor {{k: getattr(self, k) for k in self.allowed_keys}}")
             gp_keys = list(ak or [])
     cr_dict = next((s.value for s in ast.walk(cr) if isinstance(s, ast.Assign) and isinstance(s.value, ast.Dict)), None)
+    if cr_dict is None:
+        # cls(**{...})
+        cr_dict = next((k.value for c in ast.walk(cr) if isinstance(c, ast.Call) and ast.unparse(c.func) in ("cls", CLS) and not c.args and len(c.keywords) == 1
+                        for k in c.keywords if k.arg is None and isinstance(k.value, ast.Dict)), None)
     cr_keys = [k.value for k in cr_dict.keys] if cr_dict is not None else None
     cr_call = None
     if cr_dict is None:
